@@ -1,4 +1,5 @@
 import TsV.Lemmas.TargetOs
+import TsV.Model.Visitor
 /-!
 # C13 — `--target-os` filtering follows the documented accept/reject rule
 
@@ -226,5 +227,37 @@ example : wfAttrs [exAttr] = true := by decide +kernel
 example : accept [exAttr] [s%"ios", s%"android"] = some false := by decide +kernel
 example : accept [exAttr] [s%"android"] = some true := by decide +kernel
 example : N [exAttr] = [s%"ios"] ∧ P [exAttr] = [] := by decide +kernel
+
+end TsV.C13
+
+/-! ### the same decision at every attachment level -/
+namespace TsV.C13
+open TsV TsV.Syn TsV.TargetOs
+
+/-- **file level** (inner attributes `#![cfg(..)]`): a rejected file contributes nothing -/
+theorem file_level (E : Ext) (ctx : ParseContext) (pick) (c fn p : Str) (f : File)
+    (h : accept f.attrs ctx.targetOs = some false) :
+    Visitor.parseFile E ctx pick c fn p f = .ok none := by
+  unfold Visitor.parseFile Visitor.visitFile
+  by_cases hm : f.marker = true
+  · simp [hm, h, Visitor.isEmpty]
+  · simp [hm]
+
+/-- **item level** (struct / enum / type alias / const): an annotated item is parsed iff its own
+attributes are accepted -/
+theorem item_level (ctx : ParseContext) (attrs : List Attr) :
+    Visitor.accepted ctx attrs =
+      (Parser.hasTypeshareAnnotation attrs && (accept attrs ctx.targetOs == some true)) := by
+  unfold Visitor.accepted
+  obtain ⟨b, hb⟩ := Option.isSome_iff_exists.mp (accept_isSome attrs ctx.targetOs)
+  rw [hb]; cases b <;> simp
+
+/-- **variant, field and struct-variant-field level**: a member is dropped iff it carries a skip
+marker or its own attributes are rejected -/
+theorem member_level (attrs : List Attr) (T : List Str) :
+    Parser.isSkipped attrs T = (Parser.skipMarked attrs || (accept attrs T == some false)) := by
+  unfold Parser.isSkipped
+  obtain ⟨b, hb⟩ := Option.isSome_iff_exists.mp (accept_isSome attrs T)
+  rw [hb]; cases b <;> simp
 
 end TsV.C13
